@@ -414,7 +414,9 @@ impl EventLifecycle<App> for AppLife {
     fn at_sim_start(rt: &mut Runtime<App>) {
         let prog = rt.app.prog.clone();
         for r in prog.roots.iter().filter(|r| r.at_start) {
-            schedule(rt, r.time_ns, r.id, false, 0);
+            // every second root through the relative entry point (delay measured from the start time)
+            let start = prog.start_ns;
+            schedule(rt, r.time_ns, r.id, r.id % 2 == 1, r.time_ns - start);
         }
     }
 }
@@ -622,7 +624,7 @@ pub fn real_run(prog: &Program, mode: Mode<'_>, opts: &RunOpts) -> Outcome {
             out.pre_run_past_rejected = Some(r.is_err());
         }
         for r in prog.roots.iter().filter(|r| !r.at_start) {
-            schedule(&mut rt, r.time_ns, r.id, false, 0);
+            schedule(&mut rt, r.time_ns, r.id, r.id % 2 == 1, r.time_ns - prog.start_ns);
         }
 
         let result = match &mode {
